@@ -58,6 +58,8 @@ func mtext(cls string, rng *rand.Rand) string {
 		return "n\x00l"
 	case "del":
 		return "d\x7fl"
+	case "ctl": // control characters that Go escapes differently from JSON (\a, \v, \x01)
+		return "c\x01\a\vl"
 	case "html":
 		return "<h>&"
 	case "u2028":
@@ -139,10 +141,31 @@ type result struct {
 }
 
 func (r *result) add(c any, rec []byte, why string) {
-	if len(r.Violations) < 30 {
-		cj, _ := json.Marshal(c)
+	cj, _ := json.Marshal(c)
+	n13, n10 := 0, 0
+	for _, v := range r.Violations {
+		if v.Property == "C13" {
+			n13++
+		} else {
+			n10++
+		}
+	}
+	if n13 < 30 {
 		r.Violations = append(r.Violations, violation{"C13", string(cj), strconv.Quote(string(rec)), why})
 	}
+	// C10: whatever is handed to Channel.Send is one complete JSON-RPC message: a JSON object or a non-empty array of objects
+	if rec != nil && n10 < 30 {
+		if _, ok := wholeMessage(rec); !ok {
+			r.Violations = append(r.Violations, violation{"C10", string(cj), strconv.Quote(string(rec)), "the record passed to Send is not a JSON object or a non-empty array of objects"})
+		}
+	}
+}
+
+func wholeMessage(rec []byte) ([]map[string]json.RawMessage, bool) {
+	if !json.Valid(rec) || len(bytes.TrimSpace(rec)) == 0 {
+		return nil, false
+	}
+	return members(rec)
 }
 
 func jsonEq(a, b []byte) bool {
